@@ -116,7 +116,8 @@ func accept(w http.ResponseWriter, r *http.Request, opts *AcceptOptions) (_ *Con
 	w.Header().Set("Upgrade", "websocket")
 	w.Header().Set("Connection", "Upgrade")
 
-	key := r.Header.Get("Sec-WebSocket-Key")
+	// The key was validated without its surrounding whitespace: it is that key the client hashes.
+	key := strings.TrimSpace(r.Header.Get("Sec-WebSocket-Key"))
 	w.Header().Set("Sec-WebSocket-Accept", secWebSocketAccept(key))
 
 	subproto := selectSubprotocol(r, opts.Subprotocols)
